@@ -518,6 +518,68 @@ fn wire_part(rep: &Arc<Reporter>, args: &Args) {
     });
 }
 
+/// A request body that trickles in for much longer than the idle timeout T, every gap well under T, while the origin
+/// stays silent: the idle timer of the silent direction fires again and again (cancelling and restarting both copy
+/// loops), and the body must still reach the origin complete and in order - the exchange is alive, not idle.
+fn paced_upload_part(rep: &Arc<Reporter>, args: &Args) {
+    use crate::kit::*;
+    use crate::tun::*;
+    use tokio::io::AsyncWriteExt;
+    use trusttunnel::verif::tunnel::{Fwd, Policy, Proto};
+    let dir = env::work_dir(&args.root, "c17p");
+    let rt = env::rt_paused();
+    const T_MS: u64 = 2000;
+    let ctx = Arc::new(env::make_ctx(&dir, env::CtxOpts { tweak: Some(Box::new(|b| b.tcp_connections_timeout(Duration::from_millis(T_MS)))), ..Default::default() }));
+    rt.block_on(async {
+        let mut id = 171_000u64;
+        for proto in [Proto::H1, Proto::H2] {
+            for (pieces, piece_len, gap_ms) in [(20usize, 50usize, T_MS * 2 / 5), (8, 125, T_MS * 3 / 4), (40, 25, T_MS / 4)] {
+                id += 1;
+                let total = pieces * piece_len;
+                let body = common::prng::coded_stream(0x17b, id, 0, total);
+                let fwd = RecFwd::new(|_| Outcome::Silent);
+                let how = How::Tunnel(Fwd::Scripted(fwd.clone()), Policy::Default);
+                let mut client_ok = true;
+                match proto {
+                    Proto::H1 => {
+                        let sess = open_session(&ctx, Proto::H1, how, "main.test", true, id);
+                        let (_rd, mut wr) = tokio::io::split(sess.client);
+                        let _ = wr.write_all(format!("POST http://origin.test:8080/upload HTTP/1.1\r\nHost: origin.test:8080\r\nContent-Length: {}\r\n\r\n", total).as_bytes()).await;
+                        for k in 0..pieces {
+                            tokio::time::sleep(Duration::from_millis(gap_ms)).await;
+                            if wr.write_all(&body[k * piece_len..(k + 1) * piece_len]).await.is_err() { client_ok = false; break; }
+                            let _ = wr.flush().await;
+                        }
+                        tokio::time::sleep(Duration::from_millis(T_MS / 4)).await;
+                    }
+                    _ => {
+                        let sess = open_session(&ctx, Proto::H2, how, "main.test", true, id);
+                        let Ok((mut h2, conn)) = h2::client::handshake(sess.client).await else { rep.inconclusive("paced upload: HTTP/2 session not established"); continue };
+                        let driver = tokio::spawn(async move { let _ = conn.await; });
+                        let req = http::Request::builder().method("POST").uri("http://origin.test:8080/upload").header("content-length", total.to_string()).body(()).unwrap();
+                        let Ok((_resp, mut tx)) = h2.send_request(req, false) else { driver.abort(); continue };
+                        for k in 0..pieces {
+                            tokio::time::sleep(Duration::from_millis(gap_ms)).await;
+                            if tx.send_data(Bytes::copy_from_slice(&body[k * piece_len..(k + 1) * piece_len]), k + 1 == pieces).is_err() { client_ok = false; break; }
+                        }
+                        tokio::time::sleep(Duration::from_millis(T_MS / 4)).await;
+                        driver.abort();
+                    }
+                }
+                rep.evals(1);
+                rep.distinct(common::fnv(format!("paced|{:?}|{}|{}|{}", proto, pieces, piece_len, gap_ms).as_bytes()));
+                let at_origin: Vec<u8> = fwd.received.lock().unwrap().first().map(|b| b.lock().unwrap().clone()).unwrap_or_default();
+                let body_at_origin = at_origin.windows(4).position(|w| w == b"\r\n\r\n").map(|p| at_origin[p + 4..].to_vec()).unwrap_or_default();
+                let w = json!({"kind":"forwarded-paced-upload","protocol":format!("{:?}", proto),"T_ms":T_MS,"pieces":pieces,"piece_len":piece_len,"gap_ms":gap_ms,"body_len":total,"body_at_origin":body_at_origin.len(),
+                    "first_differing_offset":body_at_origin.iter().zip(body.iter()).position(|(a, b)| a != b),"client_writes_ok":client_ok,"connects":fwd.connects().len()});
+                if fwd.connects().is_empty() { rep.inconclusive("paced upload: request did not reach the forwarder"); }
+                else if body_at_origin != body { rep.violation(&format!("request body trickling in with gaps under the idle timeout did not reach the origin complete ({})", if proto == Proto::H1 { "HTTP/1.1 client" } else { "HTTP/2 client" }), w); }
+                else { rep.tally("paced upload: body complete at the origin across idle-timer restarts", 1); }
+            }
+        }
+    });
+}
+
 pub fn run(args: &Args) -> i32 {
     let rep = Arc::new(Reporter::new(
         args,
@@ -585,5 +647,6 @@ pub fn run(args: &Args) -> i32 {
         local.merge_into(&rep);
     }
     wire_part(&rep, args);
+    paced_upload_part(&rep, args);
     rep.finish()
 }
